@@ -12,6 +12,9 @@ package actor
 //     K:x       x.Shutdown()                   P:x     Tell(x, PoisonPill), wait until x is offline
 //     T:p:x     p.Stop(x)                      Q:x     system.Kill(name of x)
 //     R:x       x.Restart()                    Z       system.Stop()
+//     H:x:p:y   hook: when PostStop of x runs, call p.SpawnChild(y) from inside it (p = x or an ancestor of x that the
+//               next stop takes down: a spawn that lands while p is in the middle of its stop). The stop op then
+//               prints hook=<y>:ok|err; a child that was accepted is tracked like any other actor of the subtree.
 //     F:x       x fails (its Receive panics on a verifFail message) under a supervisor WITHOUT any directive:
 //               notifyParent finds no directive and SUSPENDS x (alive, IsSuspended, not IsRunning); waits for that
 //
@@ -41,6 +44,10 @@ type verifScenario struct {
 	mu    sync.Mutex
 	order []string
 	term  map[string]int
+	// hooks[x] runs inside PostStop of actor x (i.e. while x and, if x is stopped as part of a subtree, its
+	// ancestors are in the middle of their stop); hookRes collects what the hooks report
+	hooks   map[string]func() string
+	hookRes []string
 }
 
 func (sc *verifScenario) postStop(name string) {
@@ -80,7 +87,20 @@ func (a *verifSysActor) Receive(ctx *ReceiveContext) {
 		_ = m
 	}
 }
-func (a *verifSysActor) PostStop(*Context) error { a.sc.postStop(a.name); return nil }
+func (a *verifSysActor) PostStop(*Context) error {
+	a.sc.postStop(a.name)
+	a.sc.mu.Lock()
+	h := a.sc.hooks[a.name]
+	delete(a.sc.hooks, a.name)
+	a.sc.mu.Unlock()
+	if h != nil {
+		res := h()
+		a.sc.mu.Lock()
+		a.sc.hookRes = append(a.sc.hookRes, res)
+		a.sc.mu.Unlock()
+	}
+	return nil
+}
 
 var verifSysSeq atomic.Int64
 
@@ -116,6 +136,15 @@ func (r *verifSysRun) subtree(x string) []string {
 		out = append(out, r.subtree(c)...)
 	}
 	return out
+}
+
+func (r *verifSysRun) takeHooks() string {
+	r.sc.mu.Lock()
+	h := r.sc.hookRes
+	r.sc.hookRes = nil
+	r.sc.mu.Unlock()
+	sort.Strings(h)
+	return strings.Join(h, ",")
 }
 
 func (r *verifSysRun) takeOrder() []string {
@@ -179,6 +208,9 @@ func (r *verifSysRun) observe(op, x string, waitOffline bool) string {
 	sort.Strings(run)
 	sort.Strings(left)
 	s := fmt.Sprintf("%s:order=%s;run=%s;res=%d;reg=%d;left=%s;late=%d", op, strings.Join(order, ","), strings.Join(run, ","), res, reg, strings.Join(left, ","), late)
+	if hk := r.takeHooks(); hk != "" {
+		s += ";hook=" + hk
+	}
 	if !dwok {
 		s += ";dw=timeout"
 	}
@@ -220,6 +252,29 @@ func (r *verifSysRun) op(tok string) string {
 		r.parent[f[2]] = f[1]
 		r.children[f[1]] = append(r.children[f[1]], f[2])
 		return "C:ok"
+	case "H":
+		if len(f) != 4 || r.pids[f[1]] == nil || r.pids[f[2]] == nil {
+			return "H:nopid"
+		}
+		x, pn, y := f[1], f[2], f[3]
+		r.sc.mu.Lock()
+		if r.sc.hooks == nil {
+			r.sc.hooks = map[string]func() string{}
+		}
+		r.sc.hooks[x] = func() string {
+			cid, err := r.pids[pn].SpawnChild(context.Background(), y, &verifSysActor{sc: r.sc, name: y}, WithLongLived(), WithSupervisor(verifBareSupervisor()))
+			if err != nil {
+				return y + ":err"
+			}
+			r.sc.mu.Lock()
+			r.pids[y] = cid
+			r.parent[y] = pn
+			r.children[pn] = append(r.children[pn], y)
+			r.sc.mu.Unlock()
+			return y + ":ok"
+		}
+		r.sc.mu.Unlock()
+		return "H:ok"
 	case "F":
 		p := r.pids[f[1]]
 		if p == nil {
